@@ -258,6 +258,7 @@ def task_oracle(funcs, latencies=None):
             o = b[1][min(n, len(b[1])) - 1]
             return tuple(o)
         raise KeyError(fn)
+    task.stateful = {fn for fn, b in funcs.items() if b[0] in ("flaky", "seq")}
     return task
 
 
